@@ -16,6 +16,8 @@ def run(rep):
     n4(rep, w)
     import c06
     c06.s1(rep, w)      # teardown of a failed run must not leave closures pointing into the discarded stack
+    import c14
+    c14.m4(rep, w)      # a snippet whose import fails to load/compile leaves no half-registered module behind
 
 
 def vm_field_writes(w, f):
